@@ -616,7 +616,12 @@ func vdTamper(b *vdBucket, m *vdModule, kind int) (outsideDigest bool) {
 	switch kind {
 	case vdTamperFlip:
 		old := b.objs[i].data
-		pos := verifNondetChoice(len(old))
+		pos := 0
+		if verifParam("FLIPALL") == 1 {
+			pos = verifNondetChoice(len(old))
+		} else {
+			pos = []int{0, len(old) / 2, len(old) - 1}[verifNondetChoice(3)]
+		}
 		nb := verifNondetByte()
 		verifAssume(nb != old[pos])
 		data := append([]byte(nil), old...)
